@@ -15,17 +15,21 @@ PROCS = {
     "B": ("B", None, "X", V("g"), "g"),
     "D": ("D", "Z", None, V("b") * V("Z"), "b*Z"),
 }
+# the same processes with NON-UNIT magnitudes (numeric and symbolic): only routes that carry a magnitude
+MAGS = {"T": ("2", 2), "B": ("g", V("g")), "D": ("3", 3)}
+MAG_ROUTES = {"T": ["event", "own_rate", "ode"], "B": ["event_dest", "event_origin", "own_rate", "ode"], "D": ["event", "own_rate", "ode"]}
 ROUTES = {"T": ["event", "own_rate", "legacy", "ode"], "B": ["event_dest", "event_origin", "own_rate", "legacy", "ode"], "D": ["event", "own_rate", "legacy", "ode"]}
 DECLS = ["list", "comma", "space"]
 
 
-def oracle_spec():
+def oracle_spec(mag=False):
+    mg = (lambda p: MAGS[p][1]) if mag else (lambda p: 1)
     return expr.ModelSpec("procs", STATES, PARAMS,
-                          [expr.Ev(PROCS["T"][3], [expr.Tr("T", "X", "Y")]), expr.Ev(PROCS["B"][3], [expr.Tr("B", destination="X")]),
-                           expr.Ev(PROCS["D"][3], [expr.Tr("D", origin="Z")])])
+                          [expr.Ev(PROCS["T"][3], [expr.Tr("T", "X", "Y", magnitude=mg("T"))]), expr.Ev(PROCS["B"][3], [expr.Tr("B", destination="X", magnitude=mg("B"))]),
+                           expr.Ev(PROCS["D"][3], [expr.Tr("D", origin="Z", magnitude=mg("D"))])])
 
 
-def build_variant(order, routes, incremental, decl):
+def build_variant(order, routes, incremental, decl, mag=False):
     """returns (model, list of process names in event order or None if some process went the ode route)"""
     from pygom import SimulateOde, Transition, Event
     if decl == "list":
@@ -39,23 +43,25 @@ def build_variant(order, routes, incremental, decl):
     for p in order:
         kind, o, d, rate_e, rate_s = PROCS[p]
         r = routes[p]
+        mkw = {"magnitude": MAGS[p][0]} if mag else {}
+        ode_s = "(%s)*(%s)" % (MAGS[p][0], rate_s) if mag else rate_s
         if r in ("event", "event_dest", "event_origin"):
             if kind == "T":
-                t_ = Transition(origin=o, destination=d, transition_type="T")
+                t_ = Transition(origin=o, destination=d, transition_type="T", **mkw)
             elif kind == "B":
-                t_ = Transition(destination=d, transition_type="B") if r == "event_dest" else Transition(origin=d, transition_type="B")
+                t_ = Transition(destination=d, transition_type="B", **mkw) if r == "event_dest" else Transition(origin=d, transition_type="B", **mkw)
             else:
-                t_ = Transition(origin=o, transition_type="D")
+                t_ = Transition(origin=o, transition_type="D", **mkw)
             obj = Event(rate=rate_s, transition_list=[t_])
             ev.append(obj)
             adders.append(("add_event", obj, p))
         elif r == "own_rate":
             if kind == "T":
-                obj = Transition(origin=o, destination=d, equation=rate_s, transition_type="T")
+                obj = Transition(origin=o, destination=d, equation=rate_s, transition_type="T", **mkw)
             elif kind == "B":
-                obj = Transition(destination=d, equation=rate_s, transition_type="B")
+                obj = Transition(destination=d, equation=rate_s, transition_type="B", **mkw)
             else:
-                obj = Transition(origin=o, equation=rate_s, transition_type="D")
+                obj = Transition(origin=o, equation=rate_s, transition_type="D", **mkw)
             ev.append(obj)
             adders.append(("add_event", obj, p))
         elif r == "legacy":
@@ -73,11 +79,11 @@ def build_variant(order, routes, incremental, decl):
                 adders.append(("add_birth_death", obj, p))
         else:   # written out by hand as explicit ODE terms
             if kind == "T":
-                objs = [Transition(origin=o, equation="-(%s)" % rate_s, transition_type="ODE"), Transition(origin=d, equation=rate_s, transition_type="ODE")]
+                objs = [Transition(origin=o, equation="-(%s)" % ode_s, transition_type="ODE"), Transition(origin=d, equation=ode_s, transition_type="ODE")]
             elif kind == "B":
-                objs = [Transition(origin=d, equation=rate_s, transition_type="ODE")]
+                objs = [Transition(origin=d, equation=ode_s, transition_type="ODE")]
             else:
-                objs = [Transition(origin=o, equation="-(%s)" % rate_s, transition_type="ODE")]
+                objs = [Transition(origin=o, equation="-(%s)" % ode_s, transition_type="ODE")]
             od += objs
             for ob in objs:
                 adders.append(("add_ode", ob, None))
@@ -99,8 +105,8 @@ def build_variant(order, routes, incremental, decl):
     return m, ev_order
 
 
-def variant_unit(variants, idx):
-    spec = oracle_spec()
+def variant_unit(variants, idx, mag=False):
+    spec = oracle_spec(mag)
 
     def h(c):
         env = {s: c.real("x_" + s) for s in STATES}
@@ -113,8 +119,8 @@ def variant_unit(variants, idx):
         J_ref = [[expr.ev(expr.d(e, s), env) for s in STATES] for e in spec.rhs()]
         rate_ref = {"T": expr.ev(PROCS["T"][3], env), "B": expr.ev(PROCS["B"][3], env), "D": expr.ev(PROCS["D"][3], env)}
         for order, routes, inc, decl in variants:
-            label = "[order=%s routes=%s %s decl=%s]" % ("".join(order), ",".join("%s:%s" % (p, routes[p]) for p in "TBD"), "incremental" if inc else "constructor", decl)
-            m, ev_order = build_variant(order, routes, inc, decl)
+            label = "[%sorder=%s routes=%s %s decl=%s]" % ("non-unit magnitudes " if mag else "", "".join(order), ",".join("%s:%s" % (p, routes[p]) for p in "TBD"), "incremental" if inc else "constructor", decl)
+            m, ev_order = build_variant(order, routes, inc, decl, mag)
             c.prove([str(s) for s in m.state_list] == STATES and [str(p) for p in m.param_list] == PARAMS, "%s declarations parsed to the same state/parameter lists" % label)
             m.parameters = th
             eq = m.get_ode_eqn()
@@ -125,14 +131,15 @@ def variant_unit(variants, idx):
             if m.num_events == len(ev_order) and ev_order:
                 r = np.asarray(m.eventRateVector(x, env["t"]), dtype=object).ravel()
                 c.prove(all_close(r, [rate_ref[p] for p in ev_order], c), "%s eventRateVector identical up to the ordering of events" % label)
-    return Unit("C12.variants[chunk %d: %d variants]" % (idx, len(variants)), h, bounds={"variants": len(variants), "processes": 3},
+    return Unit("C12.variants[%schunk %d: %d variants]" % ("magnitudes 2,g,3; " if mag else "", idx, len(variants)), h, bounds={"variants": len(variants), "processes": 3, "magnitudes": "2, g (symbolic), 3" if mag else "1"},
                 program={"chunk": idx, "n": len(variants)}, n_programs=len(variants), max_paths=5)
 
 
-def all_variants():
+def all_variants(routes_table=None):
+    routes_table = routes_table or ROUTES
     out = []
     for order in itertools.permutations("TBD"):
-        for rt in itertools.product(ROUTES["T"], ROUTES["B"], ROUTES["D"]):
+        for rt in itertools.product(routes_table["T"], routes_table["B"], routes_table["D"]):
             routes = dict(zip("TBD", rt))
             for inc in (False, True):
                 for decl in DECLS:
@@ -149,14 +156,19 @@ class C12(Check):
                    "get_ode_eqn (sympy->SMT), ode and jacobian evaluators are proved equal to ONE oracle for all (x,t,theta) -- hence equal to "
                    "each other -- and the rate vector equal up to the ordering of events.  The vector-state range declaration ('y1:4') is "
                    "covered by C01's vector_states member.")
-    assumptions = ["legacy routes carry magnitude 1 (the legacy Transition has no magnitude through add_transition)", "lambdify back-end"]
+    assumptions = ["legacy transition=/birth_death= routes carry magnitude 1 (the legacy converters rebuild the Transition without it); non-unit magnitudes (2, symbolic g, 3) are checked on every route that carries a magnitude: Event objects, rate-carrying Transitions given to event=/add_event, hand-written ODE terms", "lambdify back-end"]
 
     def units(self, tier, seed):
         va = all_variants()
         if tier == "quick":
             va = va[seed % 7::7]
-        self.nV = len(va)
-        return [variant_unit(ch, i) for i, ch in enumerate(chunks(va, 16 if tier == "quick" else 48))]
+        vm = all_variants(MAG_ROUTES)
+        if tier == "quick":
+            vm = vm[seed % 5::5]
+        self.nV = len(va) + len(vm)
+        us = [variant_unit(ch, i) for i, ch in enumerate(chunks(va, 16 if tier == "quick" else 48))]
+        us += [variant_unit(ch, i, mag=True) for i, ch in enumerate(chunks(vm, 16 if tier == "quick" else 48))]
+        return us
 
     def extra(self, tier, seed):
         return {"variants": getattr(self, "nV", 0)}, []
